@@ -49,21 +49,29 @@ def _jobs(tier):
     return jobs
 
 
-def _seqs(stack, i1, tier, alpha, obj_cls_has):
+def _seqs(stack, i1, tier, alpha, obj_cls_has, delivery):
+    """(sequence, deviation bound, truncation positions)"""
     op1 = alpha[i1]
     if not obj_cls_has(op1):
         return
     seconds = [o for o in alpha if obj_cls_has(o)]
     if tier == "quick":
         for op2 in seconds:
-            yield (op1, op2)
-    else:
-        probes = _probes(alpha)
-        for op2 in seconds:
-            yield (op1, op2)
-        for op2 in seconds:
-            for op3 in probes:
-                yield (op1, op2, op3)
+            yield (op1, op2), 1, "quick"
+        return
+    probes = [o for o in _probes(alpha) if obj_cls_has(o)]
+    # A: every op1;op2, one deviation, a reply truncated at EVERY byte position
+    for op2 in seconds:
+        yield (op1, op2), 1, "all"
+    if delivery == "byte":
+        return
+    # B: op1;probe, two deviations
+    for op2 in probes:
+        yield (op1, op2), 2, "quick"
+    # C: op1;op2;probe, one deviation
+    for op2 in seconds:
+        for op3 in probes:
+            yield (op1, op2, op3), 1, "quick"
 
 
 def _stack_class(stack):
@@ -79,18 +87,14 @@ def _worker(job, chk):
     alpha = _alphabet()
     cls = _stack_class(stack)
     has = lambda op: hasattr(cls, op.name)  # noqa
-    bound = 1 if tier == "quick" else 2
-    trunc = "quick"
     menu = simnet.MENU_CONN
-    for seq in _seqs(stack, i1, tier, alpha, has):
-        b = bound
-        if tier == "thorough" and (len(seq) == 3 or delivery == "byte"):
-            b = 1  # three calls / byte-wise delivery: one deviation; otherwise two
+    for seq, b, trunc in _seqs(stack, i1, tier, alpha, has, delivery):
+        bound = b
 
-        def run(ch, seq=seq):
+        def run(ch, seq=seq, trunc=trunc):
             return connoracle.run_sequence(ch, stack, dn, seq, menu, trunc, cfg=cfg, delivery=delivery)
 
-        def on_exec(ch, res, seq=seq):
+        def on_exec(ch, res, seq=seq, trunc=trunc):
             net, obj, rec = res
             chk.add()
             if ch.labels:
@@ -102,14 +106,14 @@ def _worker(job, chk):
                                 "results": [(r["kind"], connoracle.short(r["value"])) for r in rec]})
             bad = connoracle.judge(ch, net, obj, rec, stack, dn, seq)
             if bad:
-                _report(chk, bad, ch, stack + ("+ignore_exc" if ignore_exc else ""), dn, delivery, seq, run, net)
+                _report(chk, bad, ch, stack + ("+ignore_exc" if ignore_exc else ""), dn, delivery, seq, run, net, trunc)
 
         n = explore.explore(run, b, on_exec)
         chk.count("sequences")
         chk.maximum("max_points_per_execution", 0)
 
 
-def _report(chk, bad, ch, stack, dn, delivery, seq, run, net):
+def _report(chk, bad, ch, stack, dn, delivery, seq, run, net, trunc="quick"):
     clause, call, text = bad[0]
     sig = f"{clause}|{stack}|{seq[call-1].name if call else '?'}|{connoracle.devsig(ch)}|{delivery}"
     if sig not in chk.violations:
@@ -121,6 +125,7 @@ def _report(chk, bad, ch, stack, dn, delivery, seq, run, net):
     chk.violation(sig, text, {
         "stack": stack, "default_noreply": dn, "delivery": delivery, "sequence": [o.label for o in seq],
         "choices": list(ch.choices), "plan": ch.plan(), "all": [b[2] for b in bad],
+        "trunc": trunc,
     })
 
 
@@ -131,8 +136,9 @@ def run(chk):
         "sendall delivers all bytes or none; a garbage deviation replaces one reply by one line",
         "fault plans with more deviations than the completed bound are not explored",
     ]
-    bound = 1 if chk.tier == "quick" else 2
-    chk.info["deviation_bound_completed"] = bound
+    chk.info["deviation_bound_completed"] = (
+        "1 over every op1;op2" if chk.tier == "quick" else
+        "1 over every op1;op2 with truncation at every byte (3 delivery modes); 2 over op1;probe; 1 over op1;op2;probe")
     chk.info["stacks"] = list(STACKS)
     runner.parallel(chk, _worker, _jobs(chk.tier), chunksize=1)
 
@@ -146,7 +152,7 @@ def replay(detail):
         stack, cfg = stack[: -len("+ignore_exc")], {"ignore_exc": True}
 
     def run(ch):
-        return connoracle.run_sequence(ch, stack, dn, seq, simnet.MENU_CONN, "quick", cfg=cfg,
+        return connoracle.run_sequence(ch, stack, dn, seq, simnet.MENU_CONN, detail.get("trunc", "quick"), cfg=cfg,
                                        delivery=detail.get("delivery", "whole"))
 
     ch, (net, obj, rec) = explore.replay(run, detail["choices"])
